@@ -194,6 +194,11 @@ theorem src_units_enum_labels (names : List Bytes) (abbr sing plur : Nat → Byt
   ⟨units_abbreviation_eq names abbr sing plur hnd i hi, units_singular_eq names abbr sing plur hnd i hi,
    units_plural_eq names abbr sing plur hnd i hi⟩
 
+/-- `units()` regenerated from src/quantity.rs yields exactly the constant `ALL_UNITS`: every element, in order —
+    nothing is filtered, mapped or reordered between the declaration list and what the caller iterates over -/
+theorem src_units_is_all_units (all : List Nat) :
+    run (envRegistry all) quantity_free_units [] = (.val (.host all), []) := units_eq all
+
 /-- the three `Unit` methods are three different functions of the environment (so the statement above can tell a
     swapped flavour) -/
 theorem src_unit_methods_distinct :
